@@ -338,7 +338,7 @@ var (
 	stCfgKey = []string{"goos", "goarch", "pkg", "note", "commit"}
 	stCfgVal = map[string][]string{
 		"goos": {"linux", "darwin"}, "goarch": {"amd64", "arm64"}, "pkg": {"p/a", "p/b"},
-		"note": {"n1", "n2"}, "commit": {"c1", "c2", "c3"},
+		"note": {"n1", "n2", "50%s x%d"}, "commit": {"c1", "c2", "c3"},
 	}
 )
 
